@@ -184,6 +184,10 @@ int FileCacheStore::stat(CacheStat* stat) {
 int FileCacheStore::evict(off_t offset, size_t count, int flags) {
   int ret;
   if (static_cast<size_t>(-1) == count) {
+    // evict-to-end must never extend the media file: a later store for this
+    // file takes the media file's size for the size of the cached file
+    struct stat st = {};
+    if (localFile_->fstat(&st) == 0 && offset >= st.st_size) return 0;
     ret = localFile_->ftruncate(offset);
   } else {
     #ifndef FALLOC_FL_KEEP_SIZE
